@@ -70,7 +70,7 @@ class Path:
 
 
 class State:
-    __slots__ = ('env', 'heap', 'ver', 'events', 'conds', 'known', 'loops', 'status', 'truncated')
+    __slots__ = ('env', 'heap', 'ver', 'events', 'conds', 'known', 'loops', 'status', 'truncated', 'retfacts')
 
     def __init__(self):
         self.env: Dict[str, Term] = {}
@@ -82,6 +82,7 @@ class State:
         self.loops: Tuple[int, ...] = ()
         self.status = 'normal'       # normal | break | continue | return | raise
         self.truncated = False
+        self.retfacts: Dict[Term, list] = {}
 
     def fork(self) -> "State":
         s = State()
@@ -94,6 +95,7 @@ class State:
         s.loops = self.loops
         s.status = self.status
         s.truncated = self.truncated
+        s.retfacts = dict(self.retfacts)
         return s
 
 
@@ -157,6 +159,41 @@ class Walker:
         self.stats['functions_walked'] += 1
         self.stats['paths'] += len(out)
         return out
+
+    def return_summaries(self, fn: FuncInfo, opts: WalkOptions):
+        """[(path condition, returned term)] of a small pure callee, over callee-frame terms; None if not summarisable."""
+        key = fn.qualname
+        if not hasattr(self, '_ret_cache'):
+            self._ret_cache = {}
+            self._ret_stack = []
+        if key in self._ret_cache:
+            return self._ret_cache[key]
+        if key in self._ret_stack or len(self._ret_stack) > 2:
+            return None
+        self._ret_stack.append(key)
+        try:
+            try:
+                ps = self.paths(fn, WalkOptions(unroll=1, inline_depth=opts.inline_depth, callee_raises=False,
+                                                max_paths=64, prune=opts.prune, domain=opts.domain))
+            except AnalysisError:
+                ps = None
+            res = None
+            if ps is not None and len(ps) <= 8:
+                rows = []
+                ok = True
+                for p in ps:
+                    if any(e.kind == 'store' and e.data.get('shared') for e in p.events):
+                        ok = False
+                        break
+                    if p.end == 'raise':
+                        continue
+                    v = p.last.data.get('value') if p.end == 'return' else Const(None)
+                    rows.append((p.cond, v))
+                res = rows if ok and rows else None
+            self._ret_cache[key] = res
+            return res
+        finally:
+            self._ret_stack.pop()
 
     def raise_summaries(self, fn: FuncInfo, opts: WalkOptions, depth: int = 0) -> List[RaiseSummary]:
         key = (fn.qualname + ('#setter' if fn.is_setter else ''), opts.unroll)
@@ -233,6 +270,14 @@ class _Ctx:
             st.known[f] = val
             if isinstance(f, ACmp):
                 st.known[f_not(f)] = not val
+            if isinstance(f, AIs) and f.b == Const(None) and f.a in st.retfacts:
+                # return-value correlation: the callee returns None on exactly the paths summarised here
+                rows = st.retfacts[f.a]
+                nones = [c for c, v in rows if v == Const(None)]
+                others = [c for c, v in rows if v != Const(None)]
+                pick = nones if val else others
+                if len(pick) == 1 and (nones and others):
+                    self._learn(st, pick[0], True)
 
     def decide(self, st: State, f: Formula) -> Optional[bool]:
         """Three-valued evaluation of f under the literals already established on this path."""
@@ -1271,6 +1316,17 @@ class _Ctx:
                            inlined=inl is not None)
             if inl is None:
                 self._attach_raises(ev, tgt, recv if skip_self else None, args, kw, st, skip_self)
+                if len(tgt.funcs) == 1 and len(self.inline_stack) == 0:
+                    rows = self.w.return_summaries(callee, self.opts)
+                    if rows:
+                        benv = self.bind_args(callee, recv if skip_self else None, list(args), dict(kw), st, skip_self)
+                        if benv is not None:
+                            mapping = {Sym(k): v for k, v in benv.items()}
+                            try:
+                                st.retfacts[r] = [(subst_formula(c, mapping), subst_term(v, mapping) if isinstance(v, Term) else v)
+                                                  for c, v in rows]
+                            except Exception:
+                                pass
             return r
         # ---- external / unknown
         if recv is not None:
